@@ -76,10 +76,12 @@ impl Runner {
         let rss_cap_gb: u64 = std::env::var("VERIF_RSS_CAP_GB").ok().and_then(|s| s.parse().ok()).unwrap_or(40);
         let started = std::time::Instant::now();
         let hang_cap: u64 = std::env::var("VERIF_HANG_CAP_S").ok().and_then(|s| s.parse().ok()).unwrap_or(30);
-        std::thread::spawn(move || loop {
+        std::thread::spawn(move || {
+          let mut book = std::collections::HashMap::new();
+          loop {
             std::thread::sleep(std::time::Duration::from_secs(1));
             mccore::panics::TICK.fetch_add(1, std::sync::atomic::Ordering::Relaxed);
-            let longest = mccore::panics::longest_call_in_progress();
+            let longest = mccore::panics::longest_call_in_progress(&mut book);
             if longest > hang_cap {
                 mccore::panics::report_hang(longest);
             }
@@ -89,6 +91,7 @@ impl Runner {
                 eprintln!("MACHINERY: internal cap hit (wall {} s / cap {} s, rss {} GB / cap {} GB)", started.elapsed().as_secs(), wall_cap, rss_gb, rss_cap_gb);
                 std::process::exit(2);
             }
+          }
         });
         let mut known = vec![];
         let kf = verif_root().join("known_findings.json");
@@ -137,6 +140,7 @@ impl Runner {
     /// Write evidence + replay artefacts, print the verdict lines, exit.
     pub fn finish(mut self) -> ! {
         let root = verif_root();
+        self.ev.set("longest_subject_call_cpu_s", serde_json::json!(mccore::panics::LONGEST_CPU_S.load(std::sync::atomic::Ordering::Relaxed)));
         let mut new = 0;
         let mut lines = vec![];
         for (i, v) in self.viols.iter().enumerate() {
